@@ -254,8 +254,7 @@ fn get_as_value(xs: []S, k: usize) -> %(U)s
         return "%dusize" % i
 
     # access to an S that lives at source path `sp` with oracle object `so`
-    # `addr`: may `&<path>` be written?  Not when the path is an element of an array VARIABLE (`&d[k]`): the typer reads that as
-    # "the pointer stored in d[k]" and rejects it for arrays of values (F51, probed separately in C01)
+    # `addr`: may `&<path>` be written?  (Not for the elements of an array of POINTERS: there `&d[k]` is the stored pointer.)
     def write_s(sp, so, addr=True):
         if rng.chance(1, 2):
             i, v = rng.below(n), val()
@@ -331,7 +330,7 @@ fn get_as_value(xs: []S, k: usize) -> %(U)s
                 tags.append("w:as.value:sp-setter")
                 body.append("\tset_as_value(&d, %s, %s);" % (us(k), lit(U, v)))
             else:
-                write_s("d[%s]" % us(k), root[k], addr=False)
+                write_s("d[%s]" % us(k), root[k])
         else:
             k = rng.below(4)
             if k == 0:
@@ -364,7 +363,7 @@ fn get_as_value(xs: []S, k: usize) -> %(U)s
     elif shape == "AS":
         for k in range(2):
             if rng.chance(1, 2):
-                reads += read_s("d[%s]" % us(k), root[k], 1 + k * (n + 1), addr=False)
+                reads += read_s("d[%s]" % us(k), root[k], 1 + k * (n + 1))
             else:
                 tags.append("r:as:getter")
                 for i in range(n):
